@@ -120,6 +120,8 @@ def is_known(prop, v, known):
             continue
         if 'query' in k and k['query'] != v.get('query'):
             continue
+        if 'data' in k and k['data'] != v.get('data'):
+            continue
         if 'key' not in k and 'key_regex' not in k and 'query' not in k:
             continue
         return k
@@ -260,7 +262,9 @@ def main(argv):
         broken.append({'what': 'fact extraction from %s failed (tie (a))' % REPO, 'log': gen_log[-2000:]})
 
     # 3. proof obligations
-    targets = ['Mp.Props.' + prop, 'drv']
+    # the fact modules are targets of their own: a fact that no longer checks is named precisely and does not hide the state of
+    # the theorems about the model
+    targets = ['Mp.Props.' + prop, 'Mp.FactChecks', 'Mp.FactChecks2', 'Mp.InterfaceChecks', 'drv']
     okb, blog = lake_build(targets)
     open(os.path.join(wdir, 'lake.log'), 'w').write(blog)
     axioms = parse_axioms(blog)
@@ -269,9 +273,17 @@ def main(argv):
     for th in theorems:
         ax = axioms.get(th)
         if ax is None:
-            broken.append({'what': 'theorem %s no longer checks (not reported by the axiom audit)' % th})
+            b = {'what': 'theorem %s no longer checks (not reported by the axiom audit)' % th}
+            if th.startswith('Mp.InterfaceChecks.'):
+                b['interface_drift'] = interface_diff(th.split('.')[-1])
+            broken.append(b)
         elif not set(ax) <= ALLOWED_AXIOMS:
-            broken.append({'what': 'theorem %s depends on axioms outside the allowed set: %s' % (th, ax)})
+            b = {'what': 'theorem %s depends on axioms outside the allowed set: %s' % (th, ax)}
+            if 'sorryAx' in ax:
+                b['what'] = 'theorem %s no longer checks (its statement is rejected by Lean)' % th
+            if th.startswith('Mp.InterfaceChecks.'):
+                b['interface_drift'] = interface_diff(th.split('.')[-1])
+            broken.append(b)
         else:
             discharged += 1
     if not okb:
@@ -339,6 +351,28 @@ def regenerate_facts(mpv):
     os.makedirs(gdir, exist_ok=True)
     rc, o, dt = sh([mpv, 'extract', REPO, gdir], env=go_env(), timeout=600)
     return rc == 0, o
+
+
+def interface_diff(thm):
+    """what the regenerated interface fact has that the pinned one has not, and the other way round"""
+    try:
+        pinned = open(os.path.join(LEAN, 'Mp', 'InterfaceChecks.lean')).read()
+        gen = open(os.path.join(LEAN, 'Mp', 'Generated', 'Interface.lean')).read()
+        m = re.search(r'^theorem %s : (\w+) = (.*?) := rfl$' % re.escape(thm), pinned, re.S | re.M)
+        if not m:
+            return {'error': 'theorem not found in InterfaceChecks.lean'}
+        name, want = m.group(1), m.group(2)
+        g = re.search(r'^def %s : [^\n]*? := (.*?)(?=^/--|^def |^end )' % re.escape(name), gen, re.S | re.M)
+        if not g:
+            return {'fact': name, 'error': 'fact not generated'}
+        have = g.group(1).strip()
+        item = r'\("[^"]*", \[[^\]]*\]\)|"(?:[^"\\]|\\.)*"'
+        ws, hs = re.findall(item, want) or [want], re.findall(item, have) or [have]
+        ws, hs = [x if isinstance(x, str) else x for x in ws], [x if isinstance(x, str) else x for x in hs]
+        wa, ha = set(re.findall(r'\("[^"]*", \[[^\]]*\]\)|"[^"]*"', want)), set(re.findall(r'\("[^"]*", \[[^\]]*\]\)|"[^"]*"', have))
+        return {'fact': name, 'new_in_source': sorted(ha - wa)[:40], 'gone_from_source': sorted(wa - ha)[:40]}
+    except Exception as e:
+        return {'error': str(e)}
 
 
 def finish(prop, tier, seed, cfg, t0, cov, violations, broken, notes, known):
